@@ -27,13 +27,20 @@ package shell_operator
 //@ package github.com/flant/shell-operator/pkg/task
 // GetProp returns what was stored; the contract only defines the ghost lastFailedMsg.
 //@ trusted func Task.GetProp
-//@   modifies shell_operator.lastFailedMsg
+//@   modifies shell_operator.lastFailedMsg, shell_operator.lastProp
+//@   ghostset shell_operator.lastProp := result
 //@   ensures shell_operator.lastFailedMsg == shell_operator.failedMsgOf(result)
 //@ package github.com/flant/shell-operator/pkg/shell-operator
 
 // The task handler runs hooks; it never touches the ConversionRequest of the HTTP layer.
+// Ghost: the status it returned last.
+//@ ghost lastTaskStatus queue.TaskStatus
+//@ ghost nTaskRuns int
+//@ ghost lastProp interface{}
 //@ trusted func (*ShellOperator).taskHandler
-//@   modifies nothing
+//@   modifies lastTaskStatus, nTaskRuns
+//@   ghostset lastTaskStatus := result.Status
+//@   ghostset nTaskRuns := nTaskRuns + 1
 
 // C15: the request handed in by the HTTP layer is not modified (the object-count check of
 // handleReviewRequest compares the answer against it).
@@ -42,7 +49,7 @@ package shell_operator
 //@ func (*ShellOperator).conversionEventHandler
 //@   prop C15
 //@   requires lastFailedMsg == ""
-//@   modifies lastFailedMsg
+//@   modifies lastFailedMsg, lastProp, lastTaskStatus, nTaskRuns
 //@   ensures [failed-message-relayed] result1 == nil && lastFailedMsg != "" ==> result0 != nil && result0.FailedMessage == lastFailedMsg
 //@   loop 1
 //@     invariant [no-step-after-failure] lastFailedMsg == ""
@@ -63,17 +70,73 @@ package shell_operator
 //@ ghost lastMeta interface{}
 //@ ghost nUnlock int
 //@ ghost lastWaitHook *hook.Hook
+//@ ghost gotMeta interface{}
 //@ ghost lastWaitErr error
 
-// handleRunHook executes the hook with the contexts of hookMeta (C12 covers its inside). It needs
-// the rate-limit token of this very hook (C18) and consumes it.
-//@ trusted func (*ShellOperator).handleRunHook
+// Hook.Run executes the hook process with the given contexts (C12 covers its inside). It needs the
+// rate-limit token of this very hook (C18) and consumes it. Ghost: its results.
+//@ ghost lastHookResult *hook.Result
+//@ ghost lastHookErr error
+//@ ghost nSetAdm int
+//@ ghost lastAdmProp interface{}
+//@ ghost nPatchExec int
+//@ package github.com/flant/shell-operator/pkg/hook
+//@ trusted func (*Hook).Run
+//@   requires [rate-limit-token] shell_operator.lastWaitHook == h && shell_operator.lastWaitErr == nil && h != nil
+//@   modifies shell_operator.nRun, shell_operator.ranContexts, shell_operator.lastWaitHook, shell_operator.lastHookResult, shell_operator.lastHookErr
+//@   ghostset shell_operator.nRun := shell_operator.nRun + 1
+//@   ghostset shell_operator.ranContexts := context
+//@   ghostset shell_operator.lastWaitHook := nil
+//@   ensures shell_operator.lastHookResult == result0 && shell_operator.lastHookErr == result1 && (result1 == nil ==> result0 != nil)
+//@ package github.com/flant/shell-operator/pkg/hook/controller
+//@ trusted func (*HookController).SnapshotsInfo
+//@   modifies nothing
+//@ package github.com/flant/shell-operator/pkg/webhook/admission
+//@ trusted func (*Response).Dump
+//@   modifies nothing
+//@ package github.com/flant/shell-operator/pkg/webhook/conversion
+//@ trusted func (*Response).Dump
+//@   modifies nothing
+//@ package github.com/flant/shell-operator/pkg/kube/object_patch
+//@ trusted func ParseOperations
+//@   modifies nothing
+//@ trusted func GetPatchStatusOperationsOnHookError
+//@   modifies nothing
+//@ trusted func (*ObjectPatcher).ExecuteOperations
+//@   modifies shell_operator.nPatchExec
+//@   ghostset shell_operator.nPatchExec := shell_operator.nPatchExec + 1
+//@ package github.com/flant/shell-operator/pkg/metric
+//@ trusted func Storage.HistogramObserve
+//@   modifies nothing
+//@ trusted func Storage.GaugeSet
+//@   modifies nothing
+//@ trusted func Storage.SendBatch
+//@   modifies nothing
+//@ package github.com/flant/shell-operator/pkg/task
+//@ trusted func Task.SetProp
+//@   modifies shell_operator.nSetAdm, shell_operator.lastAdmProp
+//@   ghostset shell_operator.nSetAdm := ite(key == "admissionResponse", shell_operator.nSetAdm + 1, shell_operator.nSetAdm)
+//@   ghostset shell_operator.lastAdmProp := ite(key == "admissionResponse", value, shell_operator.lastAdmProp)
+//@ package github.com/flant/shell-operator/pkg/shell-operator
+
+// handleRunHook: one execution of the hook with the contexts of hookMeta, holding the rate-limit
+// token (C18). C14: the admission response is stored in the task only when the hook process, its
+// metrics and its object patches all succeeded, and it is the very response the hook wrote.
+// C13: patches are applied at most once per execution, before metrics and responses are accepted.
+//@ func (*ShellOperator).handleRunHook
+//@   prop C14, C18, C04
 //@   requires [rate-limit-token] lastWaitHook == taskHook && lastWaitErr == nil && taskHook != nil
-//@   modifies nRun, ranContexts, ranErr, lastWaitHook
-//@   ghostset nRun := nRun + 1
-//@   ghostset ranContexts := hookMeta.BindingContext
-//@   ghostset lastWaitHook := nil
-//@   ensures ranErr == result
+//@   requires taskHook.HookController != nil && t != nil
+//@   modifies nRun, ranContexts, ranErr, lastWaitHook, lastHookResult, lastHookErr, nSetAdm, lastAdmProp, nPatchExec
+//@   ghostset ranErr := result
+//@   ensures [runs-once]                nRun == old(nRun) + 1 && ranContexts == hookMeta.BindingContext
+//@   ensures [hook-error-fails]         lastHookErr != nil ==> result != nil
+//@   ensures [response-only-on-success] nSetAdm > old(nSetAdm) ==> result == nil && lastHookErr == nil && nSetAdm == old(nSetAdm) + 1
+//@   ensures [response-is-hooks]        nSetAdm > old(nSetAdm) ==> dyntype(lastAdmProp, *admission.Response) && lastAdmProp.(*admission.Response) == lastHookResult.AdmissionResponse && lastHookResult.AdmissionResponse != nil
+//@   ensures [response-stored]          result == nil && lastHookResult.AdmissionResponse != nil ==> nSetAdm == old(nSetAdm) + 1
+//@   ensures [patch-at-most-once]       nPatchExec <= old(nPatchExec) + 1
+//@   loop 1
+//@     invariant nRun == old(nRun) && lastWaitHook == old(lastWaitHook) && lastWaitErr == old(lastWaitErr) && nSetAdm == old(nSetAdm) && nPatchExec == old(nPatchExec)
 
 // combineBindingContextForHook (C07): here only its ghost trace; allMergedAllowFailure says whether
 // every task merged into the head allows failure.
@@ -86,7 +149,8 @@ package shell_operator
 // Assumed type invariant of task metadata: a HookRun task of a kubernetes binding carries at least
 // one binding context (tasks are built from kube events, which have one context per watch event).
 //@ trusted func Task.GetMetadata
-//@   modifies nothing
+//@   modifies shell_operator.gotMeta
+//@   ghostset shell_operator.gotMeta := result
 //@   ensures dyntype(result, task_metadata.HookMetadata) && result.(task_metadata.HookMetadata).BindingType == "kubernetes" ==> len(result.(task_metadata.HookMetadata).BindingContext) > 0
 //@ trusted func Task.UpdateMetadata
 //@   modifies shell_operator.nUpdateMeta, shell_operator.lastMeta
@@ -115,7 +179,7 @@ package shell_operator
 //@ func (*ShellOperator).taskHandleHookRun
 //@   prop C04, C18, C14
 //@   requires op.HookManager != nil && op.TaskQueues != nil && t != nil
-//@   modifies nRun, ranContexts, ranErr, nCombine, lastCombine, allMergedAllowFailure, nUpdateMeta, lastMeta, nUnlock, lastWaitHook, lastWaitErr
+//@   modifies nRun, ranContexts, ranErr, nCombine, lastCombine, allMergedAllowFailure, nUpdateMeta, lastMeta, nUnlock, lastWaitHook, lastWaitErr, lastHookResult, lastHookErr, nSetAdm, lastAdmProp, nPatchExec, gotMeta
 //@   ensures [at-most-one-run]      nRun == old(nRun) || nRun == old(nRun) + 1
 //@   ensures [status/skipped]       nRun == old(nRun) ==> result.Status == "Success" || result.Status == "Repeat"
 //@   ensures [status/repeat]        result.Status == "Repeat" ==> nRun == old(nRun) && lastWaitErr != nil
@@ -124,8 +188,32 @@ package shell_operator
 //@   ensures [ran-combined]         nRun == old(nRun) + 1 && nCombine == old(nCombine) + 1 && lastCombine != nil ==> ranContexts == lastCombine.BindingContexts
 //@   ensures [retry-keeps-contexts] nCombine == old(nCombine) + 1 && lastCombine != nil ==> nUpdateMeta > old(nUpdateMeta) && dyntype(lastMeta, task_metadata.HookMetadata)
 //@        && lastMeta.(task_metadata.HookMetadata).BindingContext == lastCombine.BindingContexts
-//@   ensures [allow-merged]         nRun == old(nRun) + 1 && ranErr != nil && result.Status == "Success" && nCombine == old(nCombine) + 1 && lastCombine != nil ==> allMergedAllowFailure
+//@   ensures [failed-strict]        nRun == old(nRun) + 1 && ranErr != nil && (nCombine == old(nCombine) || lastCombine == nil) && dyntype(gotMeta, task_metadata.HookMetadata)
+//@        && !gotMeta.(task_metadata.HookMetadata).AllowFailure ==> result.Status == "Fail"
+//@   ensures [response-needs-success] nSetAdm > old(nSetAdm) ==> ranErr == nil && nRun == old(nRun) + 1
+//@   ensures [allow-merged @C04]    nRun == old(nRun) + 1 && ranErr != nil && result.Status == "Success" && nCombine == old(nCombine) + 1 && lastCombine != nil ==> allMergedAllowFailure
 //@   ensures [unlock-after-success] nUnlock > old(nUnlock) ==> result.Status == "Success"
 //@   ensures [no-extra-tasks]       len(result.HeadTasks) == 0 && len(result.TailTasks) == 0 && len(result.AfterTasks) == 0
 //@   loop 1
 //@     invariant nUnlock >= old(nUnlock) && res.Status == "Success"
+
+// ---- C14: the admission event handler installed by the operator fails closed -----------------
+//@ package github.com/flant/shell-operator/pkg/hook
+//@ trusted func (*Manager).HandleAdmissionEvent
+//@   modifies nothing
+//@ trusted func (*Manager).DetectAdmissionEventType
+//@   modifies nothing
+//@ package github.com/flant/shell-operator/pkg/shell-operator
+
+// allowed=true is answered only with the response object the hook run stored in the task, and
+// only if the task did not fail; a failed task is answered with a denial; no task, or no
+// response in the task, is an error (turned into a denial by the HTTP layer).
+//@ func (*ShellOperator).initValidatingWebhookManager$[op]
+//@   prop C14
+//@   requires op != nil && op.HookManager != nil
+//@   modifies lastFailedMsg, lastProp, lastTaskStatus, nTaskRuns
+//@   ensures [ran-once]     result1 == nil ==> nTaskRuns == old(nTaskRuns) + 1
+//@   ensures [fail-closed]  result1 == nil && result0 != nil && result0.Allowed ==> lastTaskStatus != "Fail" && dyntype(lastProp, *admission.Response) && result0 == lastProp.(*admission.Response)
+//@   ensures [task-failed]  nTaskRuns == old(nTaskRuns) + 1 && lastTaskStatus == "Fail" ==> result1 == nil && result0 != nil && !result0.Allowed
+//@   ensures [no-response]  nTaskRuns == old(nTaskRuns) + 1 && lastTaskStatus != "Fail" && !dyntype(lastProp, *admission.Response) ==> result1 != nil
+//@   ensures [no-task]      nTaskRuns == old(nTaskRuns) ==> result1 != nil
